@@ -370,16 +370,13 @@ func (m *tableMon) memberBefore() *memberSnap {
 
 // topupInvoke registers a buy-in / re-buy / add-on as in flight (its effect may become visible in
 // snapshots published before the call returns).
-func (m *tableMon) topupInvoke(id string, amt int64) {
-	if m.pendingTopup == nil {
-		m.pendingTopup = map[string]*topup{}
-	}
+func (m *tableMon) topupInvoke(id string, amt int64) *topup {
 	tu := &topup{id: id, amt: amt, invokeSeq: m.c.Seq(), atMs: m.c.NowMs()}
-	m.pendingTopup[simrt.CurName()] = tu
 	m.topups = append(m.topups, tu)
+	return tu
 }
 
-func (m *tableMon) memberAfter(kind string, before, after *memberSnap, atomic bool, err error, joins []pt.JoinPlayer, leaves []string) {
+func (m *tableMon) memberAfter(kind string, before, after *memberSnap, atomic bool, err error, joins []pt.JoinPlayer, leaves []string, tu *topup) {
 	c := m.c
 	m.lastMemberOpMs = c.NowMs()
 	tb := m.w.eng.GetTable()
@@ -388,8 +385,6 @@ func (m *tableMon) memberAfter(kind string, before, after *memberSnap, atomic bo
 		// the call had to wait for the engine lock: before/after are not a before/after picture of it
 		c.Inconc("not_atomic")
 	}
-	tu := m.pendingTopup[simrt.CurName()]
-	delete(m.pendingTopup, simrt.CurName())
 	if tu != nil && (kind == "reserve" || kind == "redeem") {
 		if err != nil || !before.ids[tu.id] {
 			// refused, or a first buy-in (not a top-up of an existing bankroll): forget it
@@ -420,8 +415,8 @@ func (m *tableMon) memberAfter(kind string, before, after *memberSnap, atomic bo
 		// although the call failed can only have been removed by this call (one admin task)
 		gone := true
 		for _, id := range leaves {
-			if !before.ids[id] || after.ids[id] {
-				gone = false
+			if !before.ids[id] || after.ids[id] || m.leaveNamed[id] != 1 {
+				gone = false // (a departure requested by another task as well proves nothing about this call)
 			}
 		}
 		if gone {
@@ -568,6 +563,10 @@ func (m *tableMon) audit() {
 	st := tb.State
 	now := c.NowMs()
 	m.checkEnginePanics(tb)
+	m.lockQueueProbes()
+	if hp := m.pendingSettleHand; hp != nil && (st.Status != pt.TableStateStatus_TableGameSettled || st.GameCount != hp.k) {
+		m.flushSettlement()
+	}
 	quietMember := w.memberInFlight == 0
 	// C03: persistent disagreement between table and seat manager
 	if quietMember {
@@ -734,6 +733,7 @@ func (m *tableMon) atHorizon() {
 	w := m.w
 	h := m.cur
 	now := c.NowMs()
+	m.flushSettlement()
 	if h != nil && h.settled == nil && h.tainted == "" && m.extTainted == "" && !m.engineFailed {
 		since := h.openMs
 		if w.cfg.faultEndMs > since {
